@@ -201,6 +201,8 @@ func normSrc(n ast.Node) string {
 
 type fingerprint struct{ File, Func, Hash string }
 
+var fpRoots = map[string]string{} // file|func -> normalised source of the owning declaration
+
 var fingerprints []fingerprint
 
 // fingerprintOf hashes the function that owns a site together with the functions of the same
@@ -523,14 +525,18 @@ func scan(pi *pkgInfo, relDir string) []site {
 					}
 					visit(recvName(x), x)
 					if len(out) > n0 {
-						fingerprints = append(fingerprints, fingerprint{rel, recvName(x), fingerprintOf(pi, decls, x)})
+						fingerprints = append(fingerprints, fingerprint{rel, recvName(x), ""})
+						fpRoots[rel+"|"+recvName(x)] = normSrc(x)
 					}
 				}
 			case *ast.GenDecl:
 				n0 := len(out)
 				visit("<pkg>", x)
 				if len(out) > n0 {
-					fingerprints = append(fingerprints, fingerprint{rel, "<pkg>", fingerprintOf(pi, decls, x)})
+					if _, dup := fpRoots[rel+"|<pkg>"]; !dup {
+						fingerprints = append(fingerprints, fingerprint{rel, "<pkg>", ""})
+					}
+					fpRoots[rel+"|<pkg>"] += normSrc(x)
 				}
 			}
 		}
@@ -662,6 +668,7 @@ func main() {
 		}
 		nfiles += len(pi.files)
 		sites = append(sites, scan(pi, sc.rel)...)
+		buildCallGraph(pi, sc.rel)
 	}
 	sort.SliceStable(sites, func(i, j int) bool {
 		a, b := sites[i], sites[j]
@@ -716,7 +723,11 @@ func main() {
 		}
 		return fingerprints[i].Func < fingerprints[j].Func
 	})
-	b.WriteString("(* fingerprint (sha256 prefix of the comment- and whitespace-normalised source) of every function that owns a site,\n   together with the same-package functions it calls directly *)\n")
+	for i := range fingerprints {
+		k := fingerprints[i].File + "|" + fingerprints[i].Func
+		fingerprints[i].Hash = closureFingerprint(k, fpRoots[k])
+	}
+	b.WriteString("(* fingerprint (sha256 prefix of the comment- and whitespace-normalised source) of every function that owns a site,\n   together with every function of the scanned packages reachable from it through statically resolved calls (fixpoint) *)\n")
 	b.WriteString("Definition func_fingerprints : list (string * string * string) := [\n")
 	for i, f := range fingerprints {
 		sep := ";"
@@ -724,6 +735,20 @@ func main() {
 			sep = ""
 		}
 		fmt.Fprintf(&b, "  (%s, %s, %s)%s\n", coqStr(f.File), coqStr(f.Func), coqStr(f.Hash), sep)
+	}
+	b.WriteString("]%string.\n\n")
+	b.WriteString("(* how each function owning a site is reached: entry points of block execution (msg: / ante: / post: / hook: / genesis: /\n   proposal:) or of off-consensus services (offconsensus:), from a static call graph (interface calls resolved by method name) *)\n")
+	b.WriteString("Definition site_reach : list (string * string * list string) := [\n")
+	for i, f := range fingerprints {
+		sep := ";"
+		if i == len(fingerprints)-1 {
+			sep = ""
+		}
+		var q []string
+		for _, e := range reach(f.File + "|" + f.Func) {
+			q = append(q, coqStr(e))
+		}
+		fmt.Fprintf(&b, "  (%s, %s, [%s])%s\n", coqStr(f.File), coqStr(f.Func), strings.Join(q, "; "), sep)
 	}
 	b.WriteString("]%string.\n\n")
 	lst := func(name string, l []string) {
